@@ -19,6 +19,7 @@ TRUSTED = [
     "the harness runs with time.Local set to a zone that is not UTC",
 ]
 ASSUMPTIONS = [
+    "Model/Proxy.v strips the client's regular conditionals on every method; the code (since fix bd24877) does so on GET and HEAD only and passes a write's preconditions on (C08_write_preconditions). For methods other than GET/HEAD the model describes the code on requests without regular conditionals, and cmd/reval generates only those",
     "sequential requests for one resource without a Range field; a request that joins another request's flight is C05 (Model/Coalesce.v), Range answers are C07",
     "If-Range is not counted among the conditionals that must not be forwarded: it is passed on untouched (it modifies a Range request)",
     "when the origin sends no (parseable) Last-Modified the saved validator is the instant the response was stored (the code's fallback); the checker accepts exactly that instant",
